@@ -238,7 +238,7 @@ def nnvg_cmd(cfg: dict, root_dir: str, lookups, out: str):
         yp = os.path.join(out, '..', 'cfg_%s.yaml' % re.sub(r'[^A-Za-z0-9]', '_', _json.dumps(cfg['yaml'], sort_keys=True))[:80])
         with open(yp, 'w', encoding='utf-8') as f:
             f.write(_json.dumps(cfg['yaml']))      # JSON is YAML
-        cmd += ['--configuration', yp]
+        cmd[3:3] = ['--configuration', yp]      # nargs='*': must be followed by another option, not by the positional root
     for l in lookups:
         cmd += ['--lookup-dir', l]
     cmd.append(root_dir)
